@@ -1178,6 +1178,8 @@ impl DhtNetworkManager {
             let peers = self.dht_peers.read().await;
             peers.keys().cloned().collect()
         };
+        #[cfg(feature = "verif-hooks")]
+        let connected_peers = crate::verif_hooks::ordered(connected_peers);
 
         // Send leave messages to all connected peers
         for peer_id in connected_peers {
